@@ -1119,9 +1119,37 @@ pub fn presigned_variants(rng: &mut Rng, p: &Pre, valid: &Case, full: &[(Vec<u8>
 pub fn generate_presigned(rng: &mut Rng, n: u64, emit: &mut dyn FnMut(Vec<String>)) {
     let now = real_now();
     let mut produced = 0u64;
+    // the calendar edge: `date + expires` lies beyond the last representable instant of `time` (year 9999); a
+    // verifier that adds them eagerly would panic. Both are emitted in every run (and again at random below).
+    const EDGE: [(i64, u64); 2] = [(253_402_300_799, 3600), (250_246_627_200, 4_294_967_295)];
+    for (unix, expires) in EDGE {
+        let mut base = gen_base(rng, true);
+        base.body = Vec::new();
+        base.unix = unix;
+        let mut p = Pre { base, expires, placement: "calendar-edge", split_scope: false, absent_listed: false };
+        let (valid, _) = sign_presigned_case(rng, &mut p);
+        emit(valid.fields());
+        produced += 1;
+    }
     while produced < n {
         let mut base = gen_base(rng, true);
         base.body = Vec::new();
+        if rng.chance(1, 60) {
+            let (unix, expires) = EDGE[rng.below(2) as usize];
+            base.unix = unix - rng.below(3) as i64;
+            let mut p = Pre { base, expires, placement: "calendar-edge", split_scope: false, absent_listed: false };
+            let (valid, full) = sign_presigned_case(rng, &mut p);
+            let mut vars = Vec::new();
+            presigned_variants(rng, &p, &valid, &full, &mut vars);
+            shuffle(rng, &mut vars);
+            emit(valid.fields());
+            produced += 1;
+            for c in vars.into_iter().take(3) {
+                emit(c.fields());
+                produced += 1;
+            }
+            continue;
+        }
         let expires: u64 = match rng.below(8) {
             0 => 1,
             1 => rng.range(2, 59),
